@@ -328,7 +328,7 @@ def catch_expr(c):
 
 K.FAMILIES["kind"] = (gen_kind_case, run_kind_impl, kind_expr)
 K.FAMILIES["catch"] = (gen_catch_case, run_catch_impl, catch_expr)
-K.HEADER = K.HEADER.replace("Distrib Run.", "Distrib Kinds Run.")
+K.add_imports("Distrib", "Kinds")
 
 
 # ---------------------------------------------------------------------------
@@ -415,7 +415,7 @@ def boundary_expr(c):
 
 
 K.FAMILIES["boundary"] = (gen_boundary_case, run_boundary_impl, boundary_expr)
-K.HEADER = K.HEADER.replace("Distrib Kinds Run.", "Distrib Kinds Boundary Run.")
+K.add_imports("Distrib", "Kinds", "Boundary")
 
 
 # ---------------------------------------------------------------------------
